@@ -66,7 +66,9 @@ let parse_op b tok =
   | ["flip"; p] -> OFlip (n p)
   | ["flipall"] -> OFlipAll
   | ["resize"; c; x] -> OResize (n c, v x)
-  | ["assign"] -> OAssign b
+  | ["assign"] | ["assignmv"] | ["assigndb"] | ["ctormv"] -> OAssign b
+  | ["assignbs"] -> OAssignBs b
+  | ["ctorbs"] -> OCtorBs b
   | ["eq"] -> OEq b
   | ["anda"] -> OAndA b | ["ora"] -> OOrA b | ["xora"] -> OXorA b
   | ["and"] -> OAnd b | ["or"] -> OOr b | ["xor"] -> OXor b
